@@ -423,7 +423,7 @@ AllFamilies == {"operand-bool", "operand-str", "logic-int", "cond-nonbool", "arg
                 "name-undeclared", "name-out-of-scope", "match-drop-arm", "match-after-default",
                 "match-dup-arm", "neg-unsigned", "exit-forbidden", "assign-non-local", "redeclare",
                 "recursive-type", "recursive-const", "elem-type", "return-type", "let-type", "assign-type",
-                "fallthrough-after-loop"}
+                "fallthrough-after-loop", "match-rename-arm"}
 
 (* the rule of the property statement each family breaks *)
 RuleOf(f) ==
@@ -435,7 +435,7 @@ RuleOf(f) ==
     [] f \in {"field-unknown", "field-dup", "field-drop", "field-access-unknown"} -> "missing, duplicate or unknown record field"
     [] f = "field-type"           -> "field type"
     [] f \in {"name-undeclared", "name-out-of-scope"} -> "unknown or out-of-scope name"
-    [] f = "match-drop-arm"       -> "non-exhaustive match"
+    [] f \in {"match-drop-arm", "match-rename-arm"} -> "non-exhaustive match"
     [] f \in {"match-after-default", "match-dup-arm"} -> "unreachable match arm"
     [] f = "neg-unsigned"         -> "negating an unsigned value"
     [] f = "exit-forbidden"       -> "?, accept/reject or return where the enclosing item forbids it"
@@ -489,6 +489,15 @@ Sites(P, f) ==
     [] f = "match-drop-arm" ->
          {[i |-> j, x |-> x] : <<j, x>> \in UNION {{j} \X {a \in DOMAIN P.nodes[j].arms : P.nodes[j].arms[a].g = <<>>} :
                j \in {y \in NodesOf(P, {"match"}) : \A a \in DOMAIN P.nodes[y].arms : P.nodes[y].arms[a].v # "_"}}}
+    [] f = "match-rename-arm" ->
+         (* arm x (no bindings, so its body names none) takes over the variant and the binding shape of *)
+         (* another unguarded arm y: that variant is covered twice, the one of x not at all, no `_` arm  *)
+         {[i |-> j, x |-> x, y |-> y] : <<j, x, y>> \in UNION {{<<j, x, y>> : <<x, y>> \in
+               {z \in (DOMAIN P.nodes[j].arms) \X (DOMAIN P.nodes[j].arms) :
+                  /\ P.nodes[j].arms[z[1]].g = <<>> /\ P.nodes[j].arms[z[2]].g = <<>>
+                  /\ P.nodes[j].arms[z[1]].bs = <<>>
+                  /\ P.nodes[j].arms[z[1]].v # P.nodes[j].arms[z[2]].v}} :
+               j \in {q \in NodesOf(P, {"match"}) : \A a \in DOMAIN P.nodes[q].arms : P.nodes[q].arms[a].v # "_"}}}
     [] f = "match-after-default" ->
          {[i |-> j] : j \in {y \in NodesOf(P, {"match"}) : P.nodes[y].arms # <<>>}}
     [] f = "match-dup-arm" ->
@@ -524,7 +533,7 @@ Sites(P, f) ==
          (* give x a member of type y where x is y or stored inline in y *)
          {[d |-> x, y |-> y, w |-> w] : <<x, y>> \in {z \in TypeDeclIdx(P) \X TypeDeclIdx(P) :
                z[1] = z[2] \/ P.decls[z[1]].n \in TReach(P, TypeRefs(P, P.decls[z[2]].n), TypeRefs(P, P.decls[z[2]].n))},
-               w \in {"plain", "opt"}}
+               w \in {"plain", "opt", "list"}}
     [] f = "recursive-const" ->
          {[d |-> x, y |-> y] : <<x, y>> \in {z \in ConstIdx(P) \X ConstIdx(P) :
                P.decls[z[1]].t = P.decls[z[2]].t /\ (z[1] = z[2] \/ z[1] \in ReachFrom(P, z[2]))}}
@@ -587,6 +596,11 @@ Break(P, f, s) ==
     [] f = "name-out-of-scope" ->
          SetNode(AddNode(P, V(s.n)), s.b, [P.nodes[s.b] EXCEPT !.ss = InsertAt(@, s.x, NewIdx(P))])
     [] f = "match-drop-arm" -> SetNode(P, s.i, [P.nodes[s.i] EXCEPT !.arms = RemoveAt(@, s.x)])
+    [] f = "match-rename-arm" ->
+         LET ay == P.nodes[s.i].arms[s.y] IN
+         SetNode(P, s.i, [P.nodes[s.i] EXCEPT !.arms[s.x] =
+              [@ EXCEPT !.v = ay.v, !.hb = ay.hb,
+                        !.bs = [b \in DOMAIN ay.bs |-> <<"zz_b1", "zz_b2", "zz_b3", "zz_b4">>[b]]]])
     [] f = "match-after-default" ->
          (* an unguarded `_` arm in front: every arm after it is unreachable *)
          SetNode(P, s.i, [P.nodes[s.i] EXCEPT !.arms = <<Arm("_", <<>>, @[Len(@)].b)>> \o @])
@@ -632,7 +646,8 @@ Break(P, f, s) ==
                     Q2 == AddNode(Q1, LetI(nm, NewIdx(P)))
                 IN SetNode(Q2, b, [P.nodes[b] EXCEPT !.ss = <<NewIdx(Q1)>> \o @]))
     [] f = "recursive-type" ->
-         LET ty == IF s.w = "opt" THEN Opt(Named(P.decls[s.y].n)) ELSE Named(P.decls[s.y].n) IN
+         LET ty == IF s.w = "opt" THEN Opt(Named(P.decls[s.y].n))
+                   ELSE IF s.w = "list" THEN ListOf(Named(P.decls[s.y].n)) ELSE Named(P.decls[s.y].n) IN
          IF P.decls[s.d].k = "record" THEN [P EXCEPT !.decls[s.d].fs = Append(@, Pm("zz_self", ty))]
          ELSE [P EXCEPT !.decls[s.d].vs = Append(@, Vr("ZzSelf", <<ty>>))]
     [] f = "recursive-const" -> [AddNode(P, V(P.decls[s.y].n)) EXCEPT !.decls[s.d].e = NewIdx(P)]
@@ -682,5 +697,5 @@ Emit ==
   THEN PrintT(<<"REPLAY", ToJson([kind |-> "seed", seed |-> seed.name, prog |-> seed.prog])>>)
   ELSE PrintT(<<"REPLAY", ToJson([kind |-> "mutant", seed |-> seed.name, family |-> fam, rule |-> RuleOf(fam),
                                   site |-> site, prog |-> Mutant,
-                                  lax_rule |-> IF fam \in {"match-dup-arm", "fallthrough-after-loop"} THEN LaxRule(Mutant) ELSE ""])>>)
+                                  lax_rule |-> IF fam \in {"match-dup-arm", "fallthrough-after-loop", "match-rename-arm"} THEN LaxRule(Mutant) ELSE ""])>>)
 =============================================================================
